@@ -76,8 +76,12 @@ CHECKS["C13"] = {
 
 CHECKS["C05"] = {
     "corpus": True,
-    "runs": [R("./vm", {"fn": r"^ZZ_C05_(binary_numeric|binary_host_kinds|unary_numeric|unary_host_kinds|int64Value|string_concat|string_number|string_repeat|tree2|shorthand)$", "timeout_ms": 20000},
-                       {"fn": r"^ZZ_C05_", "wall_timeout": 7200})],
+    # (two runs: the host-kind table's slow queries starved the solver processes of the
+    # int64/float64 table when they shared one run - branches were cut as undecided)
+    "runs": [R("./vm", {"fn": r"^ZZ_C05_(binary_numeric|unary_numeric|int64Value|string_concat|string_number|string_repeat|tree2|shorthand)$"},
+                       {"fn": r"^ZZ_C05_(binary_numeric|unary_numeric|int64Value|string_concat|string_number|string_repeat|tree2|tree2_mixed|shorthand)$", "wall_timeout": 7200}),
+             R("./vm", {"fn": r"^ZZ_C05_(binary_host_kinds|unary_host_kinds)$"},
+                       {"fn": r"^ZZ_C05_(binary_host_kinds|binary_host_kinds_u64|unary_host_kinds)$", "wall_timeout": 7200})],
     "expect_asserts": [r"C05\.\+/int,int/value", r"C05\.</int,float/value", r"C05\.int64Value/value", r"C05\.string\+string/value", r"C05\.%/int,int/zero-divisor-is-error"],
     "bounds": {"numeric payloads": "none: all operand pairs per operator and ordered class pair over int64, float64 and the host-only kinds int, int32, int16, int8, float32 and uint8 (64 class pairs x 15 operators; thorough adds uint64 below 2^63: 81 pairs), decided per path by the solver",
                "strings": "symbolic ASCII strings of length 0..2; numbers in string concatenation from a concrete pool of 10", "repeat count": "-1..3",
